@@ -10,6 +10,7 @@ import (
 	"hash/fnv"
 	"io/ioutil"
 	"os"
+	"runtime"
 	"runtime/debug"
 	"sort"
 	"strconv"
@@ -52,27 +53,29 @@ type Result struct {
 // Ctx is handed to every job.
 type Ctx struct {
 	// 64-bit fields accessed atomically come first (alignment on 32-bit targets)
-	curIndex   int64
-	lastTake   int64
-	Job        string
-	Tier       string
-	Seed       int64
-	Shard      int
-	NShards    int
-	Only       int64 // >= 0: replay exactly this case index
-	Upto       int64 // >= 0: history replay - this shard's cases up to and including this index
-	Config     string
-	out        string
-	idx        int64
-	res        Result
-	keys       map[uint64]bool // low bit of value: nontrivial
-	start      time.Time
-	deadline   time.Time
-	transcript []string
-	finished   bool
-	stage      string
-	maxViol    int
-	Params     map[string]string
+	curIndex    int64
+	lastTake    int64
+	Job         string
+	Tier        string
+	Seed        int64
+	Shard       int
+	NShards     int
+	Only        int64 // >= 0: replay exactly this case index
+	Upto        int64 // >= 0: history replay - this shard's cases up to and including this index
+	Config      string
+	curProcs    int
+	lastGCBlock int64
+	out         string
+	idx         int64
+	res         Result
+	keys        map[uint64]bool // low bit of value: nontrivial
+	start       time.Time
+	deadline    time.Time
+	transcript  []string
+	finished    bool
+	stage       string
+	maxViol     int
+	Params      map[string]string
 }
 
 // Start reads the worker environment.
@@ -181,7 +184,31 @@ func (c *Ctx) Take() bool {
 		return false
 	}
 	c.res.Evaluated++
+	c.rotateEnv(i)
 	return true
+}
+
+// rotateEnv: the process environment is a dimension of every enumeration. As a function of the case
+// index alone (so that a replay of the case sees the same), GOMAXPROCS rotates over a list of values
+// that includes non-powers of two and values above the host's processor count, and every 16th block
+// of 512 cases starts with a garbage collection (which empties sync.Pools). Not applied to the
+// scheduler / trace jobs, which control the runtime themselves.
+var envProcs = []int{1, 16, 2, 3, 5, 8, 12, 24, 4, 32, 7, 48}
+
+func (c *Ctx) rotateEnv(i int64) {
+	if strings.HasPrefix(c.Job, "C15") || strings.HasPrefix(c.Job, "C20") || os.Getenv("VERIF_NO_ENV_ROTATION") != "" {
+		return
+	}
+	blk := i >> 9
+	want := envProcs[int(blk%int64(len(envProcs)))]
+	if want != c.curProcs {
+		runtime.GOMAXPROCS(want)
+		c.curProcs = want
+	}
+	if blk%16 == 5 && blk != c.lastGCBlock {
+		c.lastGCBlock = blk
+		runtime.GC()
+	}
 }
 
 // Index is the index of the case last taken.
